@@ -445,6 +445,8 @@ class MomentsMonitor:
                 r0, r1, _, r3 = refs.moments(ref, R)
                 if r0 > 0 and l0 > 0 and relclose(l0, r0, 1e-9) and relclose(l1 / l0, r1 / r0, 1e-9) and relclose(l3, r3, 1e-9):
                     ok = True
+                if r0 == 0 and l0 == 0:
+                    ok = True      # every class held less than one particle and was removed
             if not ok:
                 r0, r1, _, r3 = refs.moments(x, R)
                 F.add('C02.extension_keeps_distribution', f'after step {n} phase {p}: grid extended {len(x)}->{len(live)} classes; the carried distribution has N={l0!r} Ravg={l1 / l0 if l0 else 0.0!r} m3={l3!r} '
